@@ -136,9 +136,56 @@ fn multi_tree_probe(v: usize) -> CaseOutcome {
     CaseOutcome::Pass(CaseReport { fingerprint: fingerprint(&format!("c09-multi-tree{}", v)), nontrivial: true, labels: vec![format!("probe:multi-tree-history:{}", if conflict { "conflicting-third-call" } else { "three-successful-calls" })], counters: vec![], sample: Some(json!({"history": history})), evaluations: 3 })
 }
 
+/// Two calls of one file on two trees whose matched statements start at the same byte and have the
+/// same kind: what the second call reads through `@s` belongs to the second tree.
+/// `v` = bit 0-1: mode of call 1-2 (1 = lazy).
+fn same_position_probe(v: usize) -> CaseOutcome {
+    let sources = ["a = 1\n", "bb = 22\ndef f(): pass\n"];
+    let dsl = "(module (expression_statement) @s) {\n  node t\n  attr (t) txt = (source-text @s)\n  attr (t) col = (end-column @s)\n  attr (t) ty = (node-type @s)\n}\n";
+    let trees: Vec<_> = sources.iter().map(|s| pysrc::parse(s)).collect();
+    let indexes: Vec<_> = trees.iter().map(|t| TreeIndex::new(t)).collect();
+    let mut graph = Graph::new();
+    let node = |txt: &str, col: u32| MNode { attrs: [("txt".to_string(), CVal::Str(txt.into())), ("col".to_string(), CVal::Int(col)), ("ty".to_string(), CVal::Str("expression_statement".into()))].into_iter().collect(), edges: BTreeMap::new() };
+    let mut expected = MGraph::default();
+    let file = match load_valid("C09", dsl) {
+        Ok(f) => f,
+        Err(o) => return o,
+    };
+    let mut history = vec![];
+    for call in 0..2 {
+        let lazy = v >> call & 1 == 1;
+        let mode = if lazy { "lazy" } else { "strict" };
+        expected.nodes.push(if call == 0 { node("a = 1", 5) } else { node("bb = 22", 7) });
+        history.push(json!({"call": call, "mode": mode, "dsl": dsl, "source": sources[call]}));
+        let failure = |sig: &str, msg: String| CaseOutcome::Fail(Failure::new(format!("C09:{}:same-position:{}", mode, sig), msg, json!({"history": history, "variant": v})));
+        let flag = CountingFlag::with_cap(100_000);
+        let outcome = execute_into(&file, &mut graph, &trees[call], &indexes[call], sources[call], &BTreeMap::new(), &ExecOpts { lazy, debug: None }, &flag);
+        let obs = match observe(&graph, &indexes[call]) {
+            Ok(o) => o,
+            Err(e) => return failure("structure", format!("after call {} the graph is structurally inconsistent: {}", call, e)),
+        };
+        match outcome {
+            ExecOutcome::Panic(p) => return failure(&p.signature(), format!("execute_into panicked in call {}: {}", call, p.message)),
+            ExecOutcome::PollBound(_) => return failure("poll-bound", format!("call {} polled more than 100000 times", call)),
+            ExecOutcome::Err(e) => return failure(&format!("unexpected-error:{}", variant_name(root_cause(&e))), format!("call {} ({}) failed: {}", call, mode, e)),
+            ExecOutcome::Ok if obs != expected => return failure("graph-differs", format!("after call {} ({}) the graph is not the previous graph plus what the file adds on this tree: expected {} got {}", call, mode, expected.to_json(), obs.to_json())),
+            ExecOutcome::Ok => {}
+        }
+    }
+    CaseOutcome::Pass(CaseReport { fingerprint: fingerprint(&format!("c09-same-position{}", v)), nontrivial: true, labels: vec!["probe:two-trees-same-statement-position".to_string()], counters: vec![], sample: Some(json!({"history": history})), evaluations: 2 })
+}
+
+fn fixed_probe(i: usize) -> CaseOutcome {
+    match i {
+        0..=7 => probe(i),
+        8..=23 => multi_tree_probe(i - 8),
+        _ => same_position_probe(i - 24),
+    }
+}
+
 pub fn case(tape: &[u32]) -> CaseOutcome {
     if tape.len() == 2 && tape[0] == PROBE_TAG {
-        return if tape[1] >= 8 { multi_tree_probe(tape[1] as usize - 8) } else { probe(tape[1] as usize) };
+        return fixed_probe(tape[1] as usize);
     }
     let (aux, main) = split_tape(tape);
     let mut t = Tape::new(&aux);
@@ -345,7 +392,7 @@ pub fn case(tape: &[u32]) -> CaseOutcome {
 
 pub fn spec(tier: &str) -> Spec {
     let mut s = Spec::new("C09", tier, 4_000, 50_000, 1500);
-    s.rule = "histories on one Graph: optionally pre-populated through the public API (1-5 nodes, attributed nodes and edges), then 1-3 execute_into calls, each with its own generated collision-heavy program (shared anchor nodes, repeated edge statements, re-assigned attributes; lazy calls stay in the order-insensitive fragment), mode chosen per call, and 1-3 of the graph's existing nodes passed back in as GraphNode globals; generated histories use one tree, sixteen fixed histories use a different tree and file per call. Oracle: the reference interpreter advances a map/set model of the graph from the state before the call; after a successful call the observed graph must be isomorphic to the model with all pre-existing nodes fixed in place (so every existing node, edge and attribute value is intact and new nodes are numbered after them) and iter_edges must be strictly ascending; a call the model says must fail must fail; after a failed call only structural invariants are checked and the model is re-synchronised. Eight fixed probes (an attribute for a missing edge whose source has other edges below / above / around the missing sink, a repeated edge statement; strict and lazy) and sixteen fixed three-call histories over three different trees and files (every strict/lazy combination; re-created edge keeps its attributes, equal re-assignment accepted, tree-dependent attribute values, new nodes numbered after the old; in eight of them the third call assigns a different value and must fail with DuplicateAttribute). Non-trivial: one edge created by >=2 statements/matches, or a later call (or a call on a pre-populated attributed edge) that re-creates an existing edge or re-assigns an attribute. Distinct = fingerprint of the whole history.".into();
+    s.rule = "histories on one Graph: optionally pre-populated through the public API (1-5 nodes, attributed nodes and edges), then 1-3 execute_into calls, each with its own generated collision-heavy program (shared anchor nodes, repeated edge statements, re-assigned attributes; lazy calls stay in the order-insensitive fragment), mode chosen per call, and 1-3 of the graph's existing nodes passed back in as GraphNode globals; generated histories use one tree, sixteen fixed histories use a different tree and file per call. Oracle: the reference interpreter advances a map/set model of the graph from the state before the call; after a successful call the observed graph must be isomorphic to the model with all pre-existing nodes fixed in place (so every existing node, edge and attribute value is intact and new nodes are numbered after them) and iter_edges must be strictly ascending; a call the model says must fail must fail; after a failed call only structural invariants are checked and the model is re-synchronised. Eight fixed probes (an attribute for a missing edge whose source has other edges below / above / around the missing sink, a repeated edge statement; strict and lazy) and sixteen fixed three-call histories over three different trees and files (every strict/lazy combination; re-created edge keeps its attributes, equal re-assignment accepted, tree-dependent attribute values, new nodes numbered after the old; in eight of them the third call assigns a different value and must fail with DuplicateAttribute), and four two-call histories of one file on two trees whose matched statements share start byte and kind (what the second call reads through its capture belongs to the second tree). Non-trivial: one edge created by >=2 statements/matches, or a later call (or a call on a pre-populated attributed edge) that re-creates an existing edge or re-assigns an attribute. Distinct = fingerprint of the whole history.".into();
     s.assumptions = vec!["all calls of one generated history use the same tree (syntax-node references are resolved through one tree index); histories over different trees are the sixteen fixed ones, which store no syntax-node values".into(), "graph state after a failed execute_into is unspecified beyond structural consistency".into()];
     s
 }
@@ -353,8 +400,8 @@ pub fn spec(tier: &str) -> Spec {
 pub fn run_check(tier: &str) -> i32 {
     let started = std::time::Instant::now();
     let spec = spec(tier);
-    let probes: Vec<usize> = (0..24).collect();
-    let rp = run_fixed(&spec, &probes, |i| if *i >= 8 { multi_tree_probe(*i - 8) } else { probe(*i) }, |i| vec![PROBE_TAG, *i as u32]);
+    let probes: Vec<usize> = (0..28).collect();
+    let rp = run_fixed(&spec, &probes, |i| fixed_probe(*i), |i| vec![PROBE_TAG, *i as u32]);
     let result = merge_results(rp, run_tapes(&spec, case));
     finish(&spec, result, started)
 }
